@@ -479,6 +479,8 @@ struct Live {
     managers_done: Vec<bool>,
     labels_by_index: Vec<usize>,
     next_cid: usize,
+    /// largest configured mock latency (ms): quiescence after an op is 3 virtual seconds beyond it
+    max_latency: u64,
 }
 
 fn panic_text(p: &Box<dyn std::any::Any + Send>) -> String {
@@ -583,9 +585,18 @@ fn op_build(ii: &IndexedInstruments, adds: &[Add], lines: &mut Vec<String>) -> O
         labels_by_index: ii.exchanges().iter().map(|k| label(k.value)).collect(),
         exec,
         next_cid: 0,
+        max_latency: adds
+            .iter()
+            .map(|a| match a {
+                Add::Mock(c) => c.latency,
+                Add::Live(_) => 0,
+            })
+            .max()
+            .unwrap_or(0),
     };
+    let quiet = std::time::Duration::from_millis(3000 + live.max_latency);
     live.rt.block_on(async {
-        tokio::time::sleep(std::time::Duration::from_secs(3)).await;
+        tokio::time::sleep(quiet).await;
     });
     lines.push("r ok".into());
     let mut txmap = vec!["txmap".to_string()];
@@ -685,8 +696,11 @@ fn op_order(live: &mut Live, op: &[String], lines: &mut Vec<String>) {
         }
         Err(other) => panic!("unexpected send_request error {other:?}"),
     }
+    // quiescence: the manager's request timeout is 1 s (builder.rs:97), the mock exchange answers
+    // and notifies `latency` ms after the request; 3 virtual seconds beyond the largest latency
+    let quiet = std::time::Duration::from_millis(3000 + live.max_latency);
     live.rt.block_on(async {
-        tokio::time::sleep(std::time::Duration::from_secs(3)).await;
+        tokio::time::sleep(quiet).await;
     });
     let mut newly = false;
     for (j, h) in live.exec.handles.managers.iter().enumerate() {
@@ -734,6 +748,11 @@ fn op_order(live: &mut Live, op: &[String], lines: &mut Vec<String>) {
                     OrderState::Inactive(InactiveOrderState::OpenFailed(
                         OrderError::Connectivity(ConnectivityError::ExchangeOffline(_)),
                     )) => "offline".into(),
+                    // the manager's own answer when its `RequestFuture` expires (manager.rs
+                    // `process_open_timeout`): the request's key, no response of the client
+                    OrderState::Inactive(InactiveOrderState::OpenFailed(
+                        OrderError::Connectivity(ConnectivityError::Timeout),
+                    )) => "timeout".into(),
                     other => panic!("unexpected order state {other:?}"),
                 };
                 orders.push(format!(
@@ -993,7 +1012,12 @@ fn gen_mock(rng: &mut Rng, ii: &IndexedInstruments, e: usize, spoil: bool) -> Mo
         .collect();
     MockCfg {
         e,
-        latency: *rng.pick(&[0u64, 0, 10, 100, 101]),
+        // 14 %: at or beyond the manager's 1 s request timeout (builder.rs:97); 6 %: just below
+        latency: match rng.below(100) {
+            0..=13 => *rng.pick(&[1000u64, 1000, 1001, 2500, 5000]),
+            14..=19 => 999,
+            _ => *rng.pick(&[0u64, 0, 10, 100, 101]),
+        },
         fee: rng.pick(&["0", "0.001", "0.01", "0.1", "0.25"]).to_string(),
         balances,
     }
